@@ -991,6 +991,89 @@ theorem resp_last_chunk_received (cfg : Cfg) (q : RP) (k0 : CK) (b0 : Bytes) (ex
   simp only [hq, Bool.not_true, Bool.false_eq_true, if_false, hch, hk', hc]
   simp [CK.isLast, parsedChunkHdr]
 
+/-! ### chunked requests through `request_receiver` -/
+
+/-- the head of a chunked request, application receives chunks one by one (`concatenate_chunks` off): VALID, chunks
+    left unread -/
+theorem req_chunked_head (cfg : Cfg) (m u : Bytes) (maj min : Byte) (hs : HdrList) (rest : Bytes)
+    (ok : HeadOk cfg m u maj min hs) (hcc : cfg.concatChunks = false)
+    (hhost : RQ.missingHost (parsedRequest m u maj min hs) = false)
+    (hch : MH.isChunked (parsedRequest m u maj min hs).headers = true)
+    (hexp : RQ.expectContinue (parsedRequest m u maj min hs) = false) :
+    RR.receive cfg {} (Enc.requestLine m u maj min ++ (encHeaders hs ++ 13 :: 10 :: rest)) =
+      ({ request := parsedRequest m u maj min hs }, rest, .valid) := by
+  have hp := head_roundtrip cfg m u maj min hs rest ok
+  unfold RR.receive
+  simp only [hp, Bool.not_false, if_true, Bool.not_true, Bool.false_eq_true, if_false, hhost, hch]
+  unfold RR.receiveChunk
+  simp [hexp, hcc]
+
+/-- … then every chunk the encoder writes is delivered as CHUNK … -/
+theorem req_chunk_received (cfg : Cfg) (r : RR) (ext data rest : Bytes)
+    (hq : r.request.valid = true) (hhost : r.request.missingHost = false)
+    (hch : MH.isChunked r.request.headers = true) (hcc : cfg.concatChunks = false)
+    (hk : r.chunk = {} ∨ r.chunk.valid = true) (hne : data ≠ []) (ok : ChunkHdrOk cfg data.length ext) :
+    RR.receive cfg r (Enc.chunkHeader data.length ext ++ (data ++ 13 :: 10 :: rest)) =
+      ({ r with chunk := { hdr := parsedChunkHdr data.length ext, data := data, valid := true, dataCr := true } },
+        rest, .chunk) := by
+  have hc := chunk_roundtrip cfg ext data rest hne ok
+  have hk' : (if r.chunk.valid = true then ({ r with chunk := {} } : RR) else r) = { r with chunk := {} } := by
+    rcases hk with h | h
+    · cases r; simp_all
+    · simp [h]
+  unfold RR.receive
+  simp only [hq, Bool.not_true, Bool.false_eq_true, if_false, hhost, hch]
+  unfold RR.receiveChunk
+  simp only [hk', Bool.false_eq_true, if_false, hc]
+  simp [hcc]
+
+/-- … and with `concatenate_chunks` on, a chunk is appended to the body (INCOMPLETE) as long as the body stays within
+    the content limit -/
+theorem req_chunk_concatenated (cfg : Cfg) (r : RR) (ext data rest : Bytes)
+    (hq : r.request.valid = true) (hhost : r.request.missingHost = false)
+    (hch : MH.isChunked r.request.headers = true) (hcc : cfg.concatChunks = true)
+    (hk : r.chunk = {} ∨ r.chunk.valid = true) (hne : data ≠ []) (ok : ChunkHdrOk cfg data.length ext)
+    (hfit : r.body.length + data.length ≤ cfg.maxContent) :
+    RR.receive cfg r (Enc.chunkHeader data.length ext ++ (data ++ 13 :: 10 :: rest)) =
+      ({ r with chunk := { hdr := parsedChunkHdr data.length ext, data := data, valid := true, dataCr := true },
+                body := r.body ++ data }, rest, .incomplete) := by
+  have hc := chunk_roundtrip cfg ext data rest hne ok
+  have hk' : (if r.chunk.valid = true then ({ r with chunk := {} } : RR) else r) = { r with chunk := {} } := by
+    rcases hk with h | h
+    · cases r; simp_all
+    · simp [h]
+  have hpos : 0 < data.length := by cases data <;> simp_all
+  have hnl : (data.length == 0) = false := by simp; omega
+  have hle : ¬ (cfg.maxContent < r.body.length + data.length) := by omega
+  unfold RR.receive
+  simp only [hq, Bool.not_true, Bool.false_eq_true, if_false, hhost, hch]
+  unfold RR.receiveChunk
+  simp only [hk', Bool.false_eq_true, if_false, hc]
+  simp [hcc, CK.isLast, parsedChunkHdr, hnl, hle]
+
+/-- … and the last chunk completes the request: VALID with the concatenated body and the trailers -/
+theorem req_last_chunk_concatenated (cfg : Cfg) (r : RR) (ext : Bytes) (ts : HdrList) (rest : Bytes)
+    (hq : r.request.valid = true) (hhost : r.request.missingHost = false)
+    (hch : MH.isChunked r.request.headers = true) (hcc : cfg.concatChunks = true)
+    (hk : r.chunk = {} ∨ r.chunk.valid = true)
+    (ok : ChunkHdrOk cfg 0 ext) (hlines : ∀ p ∈ ts, LineOk cfg p.1 p.2)
+    (hl : totalLen ts ≤ cfg.maxHdrLen) (hn : ts.length ≤ cfg.maxHdrNum) :
+    let x := RR.receive cfg r (Enc.lastChunk ext (encHeaders ts) ++ rest)
+    x.2.2 = .valid ∧ x.2.1 = rest ∧ x.1.body = r.body ∧ x.1.chunk.trailers.fields = fieldsOf [] ts := by
+  have hc := lastChunk_roundtrip cfg ext ts rest ok hlines hl hn
+  have hk' : (if r.chunk.valid = true then ({ r with chunk := {} } : RR) else r) = { r with chunk := {} } := by
+    rcases hk with h | h
+    · cases r; simp_all
+    · simp [h]
+  intro x
+  have hx : x = RR.receive cfg r (Enc.lastChunk ext (encHeaders ts) ++ rest) := rfl
+  rw [hx]
+  unfold RR.receive
+  simp only [hq, Bool.not_true, Bool.false_eq_true, if_false, hhost, hch]
+  unfold RR.receiveChunk
+  simp only [hk', Bool.false_eq_true, if_false, hc]
+  simp [hcc, CK.isLast, parsedChunkHdr]
+
 /-! ### non-vacuity: concrete instances of the premises -/
 
 /-- `HTTP/1.1 200 OK`, `Server: via`, a 2-byte body; a 5-byte chunk with an extension; default limits -/
